@@ -2686,7 +2686,10 @@ class RootTransaction(Transaction):
 
     def _close_impl(self, try_deactivate: bool = False) -> None:
         try:
-            if self.is_active:
+            if self.is_active or self.connection._transaction is self:
+                # the second case is a transaction whose DBAPI commit failed:
+                # it was deactivated but left in place so that a rollback
+                # occurs
                 self._connection_rollback_impl()
 
             if (
